@@ -37,7 +37,10 @@ tolerance of the case.
                     vertices of one side at their chart coordinates and running off
                     screen along the two crossing edges (reference clipping
                     ref.draw.sign_runs / clipped_piece), also in composites mixed
-                    with polygons inside the chart.
+                    with polygons inside the chart; when the representatives span a
+                    convex cone, a 15x15 grid of the view is inside the two patches
+                    exactly where it is inside the polygon (ref.draw.cone_membership;
+                    vertices up to 50 view diameters away).
   wrong-dimension   objects of dimension != 2 raise GeometryError, add nothing.
 """
 import math
@@ -59,7 +62,12 @@ RULE = ("cases = (draw method, model / chart, object class, composite shape, "
         "geodesics incl. custom radius_threshold; points; horospheres; horoarcs; "
         "projective points, segments, polygons in charts 0..2, composites of polygons "
         "crossing the line at infinity at different vertex indices (assume_affine="
-        "False); sign classes of the homogeneous representatives (positive / negative "
+        "False) and with vertices 0.5..50 view diameters outside the window on the "
+        "same or on opposite sides; exact special positions (endpoint exactly at the "
+        "origin, foot of the perpendicular from the origin, axis-parallel edges ending "
+        "on an axis, antipodal, pre-image of the origin under an exact dyadic boost) "
+        "for segments and polygon edges; sign classes of the homogeneous "
+        "representatives (positive / negative "
         "/ alternating per unit or per vertex) and the drawing transform written as "
         "-A for every object kind; objects of dimension "
         "1 and 3; drawings that are not pyplot's current axes; non-trivial = "
@@ -82,7 +90,9 @@ ASSUMPTIONS = [
     "projective polygons crossing the chart's line at infinity are judged when they "
     "cross it exactly twice (the edges are the segments s X_i + t X_{i+1}, s,t >= 0, "
     "of the given representatives); the closing edge between the two off-screen "
-    "artificial vertices is not judged",
+    "artificial vertices is judged only through the coverage of the view (grid "
+    "points whose vector makes an angle of sine > 1e-4 with every facet plane of "
+    "the cone), and only for representatives spanning a convex cone",
 ]
 DT = "geometry_tools/drawtools.py"
 ANCHORS = [(DT, q) for q in (
@@ -749,7 +759,10 @@ def setup(run):
         assume_affine = bool(call.bound().get("assume_affine", True))
         X = rd.apply_columns(A, data.reshape((-1,) + data.shape[-2:]))
         nv = X.shape[-2]
-        if np.min(rd.chart_margin(X, ci)) < 0.02:
+        # vertices of polygons drawn with assume_affine=False may lie far outside the
+        # view (|chart coordinates| up to 2000, i.e. x_i/|X| down to 5e-4): the sign
+        # of x_i and the relative 1e-9 tolerance stay safe (rounding ~1e-15/margin)
+        if np.min(rd.chart_margin(X, ci)) < (5e-4 if not assume_affine and ci == 0 else 0.02):
             return m_proj.skip("vertex near the chart's line at infinity")
         runs = [rd.sign_runs(x, ci) for x in X]
         nruns = np.array([len(r_) for r_ in runs])
@@ -796,9 +809,11 @@ def setup(run):
             free = [rd.open_vertices(p.get_xy() if hasattr(p, "get_xy") else p.get_path().vertices)
                     for p in patches]
             first_switch = set()
+            grid = rd.view_grid(xlim, ylim, 15)
             for k in np.flatnonzero(~in_chart):
                 sk = np.sign(X[k][:, ci])
                 first_switch.add(int(np.argmax(sk != sk[0])))
+                matched = []
                 for rn in runs[k]:
                     V, wp, wn = rd.clipped_piece(X[k], rn, ci)
                     if min(np.linalg.norm(V[0] - wp), np.linalg.norm(V[-1] - wn)) < 1e-6:
@@ -824,6 +839,7 @@ def setup(run):
                         continue
                     j, al = hit
                     free[j] = None
+                    matched.append(patches[j])
                     dummies = al[len(V):]
                     if len(dummies) < 2:
                         m_proj.fail(pre + "piece-not-closed-off-screen",
@@ -847,6 +863,46 @@ def setup(run):
                                     "the boundary of an unbounded piece runs from its end vertex "
                                     "towards the neighbour across the line at infinity instead of "
                                     "away from it", dict(pcase, patch=al))
+                # coverage inside the view: when the representatives span a convex
+                # cone the polygon is the projectivisation of that cone, and a point
+                # of the view belongs to it iff the determinants det(X_i, X_{i+1}, y)
+                # have one sign (rd.cone_membership) -- whichever way the drawing code
+                # cuts it into pieces.  Every grid point of the view clearly inside the
+                # polygon must be inside one of its two patches, every point clearly
+                # outside must be outside both (vertices far outside the window on
+                # either side: seeded change C19-r5-2, artificial vertices that end up
+                # inside the window; on any tree: a closing edge between off-screen
+                # artificial vertices that passes through the window).
+                if len(matched) == 2 and rd.convex_cone_orientation(X[k]) != 0:
+                    inside, clear = rd.cone_membership(X[k], grid, ci)
+                    drawn = np.zeros(len(grid), dtype=bool)
+                    for pt in matched:
+                        path = pt.get_patch_transform().transform_path(pt.get_path())
+                        drawn |= np.asarray(path.contains_points(grid), dtype=bool)
+                    sure = clear > 1e-4
+                    missing = sure & inside & ~drawn
+                    extra = sure & ~inside & drawn
+                    far = float(np.max(np.linalg.norm(
+                        rd.affine_chart(X[k], ci) - [np.mean(xlim), np.mean(ylim)], axis=-1))
+                        / np.hypot(xlim[1] - xlim[0], ylim[1] - ylim[0]))
+                    ccase = dict(case, polygon=int(k), homogeneous_vertices=X[k],
+                                 patches=[rd.open_vertices(pt.get_xy()) if hasattr(pt, "get_xy")
+                                          else np.asarray(pt.get_path().vertices) for pt in matched],
+                                 grid_points_inside_polygon=int(np.sum(sure & inside)),
+                                 grid_points_missing=grid[missing][:6], grid_points_extra=grid[extra][:6],
+                                 farthest_vertex_in_view_diameters=far)
+                    m_proj.require(not np.any(missing), pre + "view-not-covered-by-the-pieces",
+                                   "%d of %d grid points of the view that lie inside the polygon "
+                                   "(convex cone test) are in neither of its two drawn patches; "
+                                   "farthest vertex %.3g view diameters from the view's centre"
+                                   % (int(np.sum(missing)), int(np.sum(sure & inside)), far), ccase)
+                    m_proj.require(not np.any(extra), pre + "pieces-cover-points-outside-the-polygon",
+                                   "%d grid points of the view outside the polygon are inside one of "
+                                   "its drawn patches" % int(np.sum(extra)), ccase)
+                    run.note_class("proj.draw_polygon/coverage", nv,
+                                   "far" if far > 3 else "near",
+                                   "view-partly-inside" if np.any(sure & inside) and np.any(sure & ~inside)
+                                   else ("view-inside" if np.any(sure & inside) else "view-outside"))
             run.note_class("proj.draw_polygon/nonaffine", nv, ncross, int(np.sum(in_chart)),
                            "distinct-switch-indices" if len(first_switch) > 1 else "one-switch-index")
         run.note_class("proj.draw_polygon", ci, nv, data.shape[:-2], assume_affine)
